@@ -10,6 +10,8 @@ open SteelVerif.C12
 #print axioms read_write_partial_iv
 #print axioms read_write_partial_v
 #print axioms read_write_quote
+#print axioms write_depth_balanced
+#print axioms write_depth_balanced_seq
 #print axioms sampleDatum_wfd
 #print axioms counter_symbol_needs_quoting
 #print axioms counter_empty_symbol
